@@ -821,6 +821,10 @@ func (ex *Exec) applyContract(st *State, con *Contract, sfn *ssa.Function, c *ss
 	for _, e := range con.Ens {
 		t, err := env2.trBool(e.E)
 		if err != nil {
+			if strings.Contains(err.Error(), "callres:") || strings.Contains(err.Error(), "called:") {
+				// clause about the callee's internal calls: meaningful only inside the callee; not assumed here
+				continue
+			}
 			unsup("%s:%d: ensures[%s] of %s: %v", e.File, e.Line, e.Label, shortKey(con.Key), err)
 		}
 		g.assume(ex.pcCur, t)
